@@ -18,6 +18,7 @@ import (
 	"bytes"
 	"fmt"
 	"math"
+	"sort"
 	"strings"
 
 	"github.com/go-enry/go-enry/v2"
@@ -220,7 +221,7 @@ func (p *contentProvider) scoreLineBM25(ms []*candidateMatch, lineNumber int) (f
 
 	score := 0.0
 	tfs := p.calculateTermFrequency(ms, false) // ignore file priority, since we're just scoring within a single file
-	for _, f := range tfs {
+	for _, f := range sortedTermFrequencies(tfs) {
 		score += tfScore(k, b, L, f)
 	}
 
@@ -239,6 +240,18 @@ func (p *contentProvider) scoreLineBM25(ms []*candidateMatch, lineNumber int) (f
 
 	score = boostScore(score, ms)
 	return score, symbolInfo
+}
+
+// sortedTermFrequencies returns the frequencies in ascending order. BM25 adds
+// one float per term; adding them in map iteration order makes the last bits
+// of the score (and so the order of near-ties) differ from run to run.
+func sortedTermFrequencies(tf map[string]int) []int {
+	fs := make([]int, 0, len(tf))
+	for _, f := range tf {
+		fs = append(fs, f)
+	}
+	sort.Ints(fs)
+	return fs
 }
 
 // tfScore is the term frequency score for BM25.
@@ -381,7 +394,7 @@ func (d *indexData) scoreFileBM25(fileMatch *zoekt.FileMatch, doc uint32, cands 
 
 	bm25Score := 0.0
 	sumTF := 0 // Just for debugging
-	for _, f := range tf {
+	for _, f := range sortedTermFrequencies(tf) {
 		sumTF += f
 		bm25Score += tfScore(k, b, L, f)
 	}
